@@ -46,6 +46,8 @@ type cs struct {
 	// Transport: "" = the scheduler's unbounded in-memory link under p2p.NewConn; "pipe" = p2p.Pipe() (the
 	// repository's own synchronous in-memory transport, its io.Pipe rewritten onto the scheduler)
 	Transport string `json:"transport,omitempty"`
+	// U: unbounded exploration with sleep sets (every Mazurkiewicz trace x every read-size answer of the regime)
+	U bool `json:"unbounded,omitempty"`
 }
 
 func seqString(ops []Op) string {
@@ -125,7 +127,26 @@ func sendAll(conn *p2p.Conn, ops []Op) error {
 }
 
 // recvAll returns "" if everything matched, else a description.
-func recvAll(conn *p2p.Conn, ops []Op) string {
+// held is a received value the receiver keeps (the slice exactly as the connection returned it, not a copy).
+type held struct {
+	k    int
+	o    Op
+	got  []byte
+	want []byte
+}
+
+// recheck compares the kept values again: what a receive returned must not change when later items are received,
+// the stream ends or the connection is closed.
+func recheck(hs []held) string {
+	for _, h := range hs {
+		if !bytes.Equal(h.got, h.want) {
+			return fmt.Sprintf("the value returned by receive #%d %s changed afterwards (first difference at %d): the returned slice aliases the connection's buffer", h.k, h.o, firstDiff(h.got, h.want))
+		}
+	}
+	return ""
+}
+
+func recvAll(conn *p2p.Conn, ops []Op, keep *[]held) string {
 	var ld ot.LabelData
 	for k, o := range ops {
 		v := mkValue(k, o)
@@ -150,6 +171,7 @@ func recvAll(conn *p2p.Conn, ops []Op) string {
 			if err != nil || !bytes.Equal(got, v.b) {
 				return fmt.Sprintf("receive #%d %s: %d bytes, err %v; first difference at %d", k, o, len(got), err, firstDiff(got, v.b))
 			}
+			*keep = append(*keep, held{k, o, got, v.b})
 		case "s":
 			got, err := conn.ReceiveString()
 			if err != nil || got != string(v.b) {
@@ -255,8 +277,9 @@ func system(k cs, w *world) func() {
 						s.sendErr = err
 					}
 				}
+				var kept []held
 				if s.sendErr == nil {
-					s.recvDiff = recvAll(conn, recv)
+					s.recvDiff = recvAll(conn, recv, &kept)
 				}
 				s.eofOK = true
 				if len(send) == 0 {
@@ -267,6 +290,9 @@ func system(k cs, w *world) func() {
 				}
 				// closing delivers everything still buffered
 				s.closeErr = conn.Close()
+				if s.recvDiff == "" {
+					s.recvDiff = recheck(kept)
+				}
 				s.sent = conn.Stats.Sent.Load()
 				s.recvd = conn.Stats.Recvd.Load()
 				s.done = true
@@ -358,7 +384,13 @@ func runCaseSharded(ctx *runner.Ctx, k cs, shard, nshards int) {
 	}
 	var w *world
 	outcomes := map[string]bool{}
-	x.Explore(func() {
+	explore := x.Explore
+	if k.U {
+		explore = func(system func(), visit func(r *csched.Result, p, e int) bool) {
+			x.ExploreUnbounded(system, func(r *csched.Result) bool { return visit(r, -1, -1) })
+		}
+	}
+	explore(func() {
 		w = &world{}
 		system(k, w)()
 	}, func(r *csched.Result, p, e int) bool {
@@ -379,11 +411,25 @@ func runCaseSharded(ctx *runner.Ctx, k cs, shard, nshards int) {
 			report(ctx, kk, kind, fmt.Sprintf("%s [preemptions=%d read-deviations=%d]", what, p, e), r)
 			return false
 		}
-		outcomes[fmt.Sprintf("ok/points=%d", len(r.Points)/8*8)] = true
+		if k.U {
+			outcomes[fmt.Sprintf("ok/unbounded/points=%d", len(r.Points)/8*8)] = true
+		} else {
+			outcomes[fmt.Sprintf("ok/points=%d", len(r.Points)/8*8)] = true
+		}
 		return true
 	})
-	if os.Getenv("C11_DEBUG") != "" {
-		fmt.Fprintf(os.Stderr, "case A=[%s] B=[%s] regime=%s P=%d E=%d: %d executions, max points %d\n", seqString(k.A), seqString(k.B), k.Regime, k.P, k.E, x.Executions, x.MaxPoints)
+	if k.U {
+		if shard == 0 {
+			ctx.Count("unbounded_systems", 1)
+		}
+		ctx.Count("unbounded_executions", x.Executions)
+		ctx.Count("unbounded_sleep_blocked", x.SleepBlocked)
+		if x.Truncated {
+			ctx.Count("unbounded_systems_cut", 1)
+		}
+	}
+	if os.Getenv("C11_DEBUG") != "" || (ctx.Replay && k.U) {
+		fmt.Fprintf(os.Stderr, "case A=[%s] B=[%s] regime=%s P=%d E=%d: %d executions, %d sleep-blocked, max points %d truncated=%v\n", seqString(k.A), seqString(k.B), k.Regime, k.P, k.E, x.Executions, x.SleepBlocked, x.MaxPoints, x.Truncated)
 	}
 	ctx.Count("executions", x.Executions)
 	ctx.Count("transitions", x.Transitions)
